@@ -921,8 +921,9 @@ inline void runC18(Ctx &c)
     {
         struct W
         {
-            std::vector<double> T, P;
-            double bc[6];
+            std::vector<double> T, P; // P row by row
+            std::vector<double> bc;   // sv sa sj ev ea ej, each with dim entries
+            int dim = 1;
         };
         static const std::vector<W> ws = {
             {{24.247189657973784, 23.79350859226772, 0.24247189657973783, 24.247189657973784, 24.247189657973784},
@@ -931,6 +932,12 @@ inline void runC18(Ctx &c)
             {{38.18772612082515, 0.38187726120825144, 38.18772612082515, 0.38187726120825144, 38.18772612082515, 38.18772612082515},
              {0.8203068459108116, 0.869068344278644, -1.1765564538724707, -1.529328537962376, 2.59654056942635, 2.710200774070628, -0.9341058610808535},
              {-0.6467041219374614, -4.234891482745426, -1.2192090464652408, -3.5533208504641456, 0.6871314865580583, -1.5810945363545699}},
+            // KF1 at its boundary (found by the adversarial search of the thorough tier, seed 2): duration ratio exactly 16,
+            // 24 segments, relative jump of the 6th derivative 2.1e-3 at knot 7
+            {{0x1.11b3b1076a19bp+2, 0x1.adc1bea22ce9ap+1, 0x1.256d45b187419p+2, 0x1.050c59191200bp-1, 0x1.256d45b187419p+2, 0x1.256d45b187419p+2, 0x1.256d45b187419p+2, 0x1.256d45b187419p-2, 0x1.256d45b187419p+2, 0x1.256d45b187419p+2, 0x1.256d45b187419p+2, 0x1.256d45b187419p+2, 0x1.256d45b187419p-2, 0x1.256d45b187419p-2, 0x1.256d45b187419p+2, 0x1.95190c3867ebbp-2, 0x1.256d45b187419p+2, 0x1.256d45b187419p-2, 0x1.256d45b187419p-2, 0x1.0e4557e201359p+1, 0x1.256d45b187419p+2, 0x1.7884e113f9fcfp+1, 0x1.256d45b187419p-2, 0x1.256d45b187419p-2},
+             {-0x1.203f78ef694cdp-2, 0x1.426ee16cb75a5p-2, 0x1.4c37cb33d738bp+0, 0x1.1ecc2f11b8bd3p-1, 0x1.1c82dfc6014c7p+0, -0x1.85a74e1fb2057p+0, 0x1.5cbdf5496edf6p-2, -0x1.263d29f1f6d06p-1, -0x1.bd0d55ecb256bp+0, 0x1.9184cabc9dc9cp-5, 0x1.6dce39bb1e6b5p-1, 0x1.37dae6a24f94p-2, -0x1.96fded70a08dbp-1, -0x1.a2fadd86cfa17p-2, 0x1.63d0c3ce0d30bp-3, 0x1.9dad1654aa727p-2, 0x1.3ca140ff9b5fap+1, 0x1.4055a9433cc4p-1, 0x1.83f5a58732b0fp+0, 0x1.66b1799ac66c3p+1, 0x1.7182f77b439a3p+0, 0x1.a57499219628cp-3, -0x1.25049c289e19cp-2, 0x1.03edb4f7ae808p-1, 0x1.64fa3c6a12632p-1, -0x1.ff507f0e7c51fp-3, 0x1.1706c03a821ddp+0, -0x1.5dfa60f9a57c6p+0, -0x1.e11b3b1aa141p+0, 0x1.237302b8cc6fdp-2, 0x1.6f1e1578318e3p-2, 0x1.281f708a7f246p+0, 0x1.3917a97401bfp-2, -0x1.c865fb1deeeaap-1, -0x1.1cb2d99dbfbe4p-3, 0x1.d99d3eae19586p-4, -0x1.d3fecfa4ad1e3p-1, -0x1.fa910a6aa2ddp-2, 0x1.f5c6e84dbd84cp-2, 0x1.f14f7935524c9p-5, 0x1.d38cda20a11f3p-2, 0x1.2f367fe4e8fb3p+0, -0x1.0fb4b516c3ff3p-2, 0x1.27851e7eada4fp-2, 0x1.0f7bd90775e5dp-5, 0x1.40a9e68064492p-2, 0x1.3e37653b47639p-1, 0x1.dd7f95b6d6f5ep-4, 0x1.a8a39a445f4p+0, -0x1.4eca80a922f51p-2},
+             {-0x1.a9d02e745ca58p-2, 0x1.710287e523ff8p+2, -0x1.5e589af83ed02p+1, 0x1.3c868151c5f8fp+1, 0x1.07c049049b95dp-5, 0x1.9401cb7b6d612p-2, 0x1.5b9191a6bea5ep+1, 0x1.e077c56db12d2p-1, -0x1.0a1a20796a1afp+2, -0x1.467bc12073918p+2, -0x1.45e98a83357dp+2, -0x1.9d78a94c70b0ep+2},
+             2},
         };
         for (uint64_t idx = 0; idx < ws.size(); ++idx)
         {
@@ -939,20 +946,26 @@ inline void runC18(Ctx &c)
             (void)c.beginCase("witness", idx);
             Problem p;
             p.order = 7;
-            p.dim = 1;
+            p.dim = ws[idx].dim;
+            if (!haveSplineCell(7, p.dim))
+                continue;
             p.N = (int)ws[idx].T.size();
             p.T = ws[idx].T;
             p.t0 = 0;
-            p.P = MatrixXd::Zero(p.N + 1, 1);
+            p.P = MatrixXd::Zero(p.N + 1, p.dim);
             for (int i = 0; i <= p.N; ++i)
-                p.P(i, 0) = ws[idx].P[i];
-            p.bc.setZero(1);
-            p.bc.sv(0) = ws[idx].bc[0];
-            p.bc.sa(0) = ws[idx].bc[1];
-            p.bc.sj(0) = ws[idx].bc[2];
-            p.bc.ev(0) = ws[idx].bc[3];
-            p.bc.ea(0) = ws[idx].bc[4];
-            p.bc.ej(0) = ws[idx].bc[5];
+                for (int j = 0; j < p.dim; ++j)
+                    p.P(i, j) = ws[idx].P[i * p.dim + j];
+            p.bc.setZero(p.dim);
+            for (int j = 0; j < p.dim; ++j)
+            {
+                p.bc.sv(j) = ws[idx].bc[0 * p.dim + j];
+                p.bc.sa(j) = ws[idx].bc[1 * p.dim + j];
+                p.bc.sj(j) = ws[idx].bc[2 * p.dim + j];
+                p.bc.ev(j) = ws[idx].bc[3 * p.dim + j];
+                p.bc.ea(j) = ws[idx].bc[4 * p.dim + j];
+                p.bc.ej(j) = ws[idx].bc[5 * p.dim + j];
+            }
             c.dump = [&]() { return JObj().str("mode", "recorded_witness").raw("problem", dumpProblem(p)).done(); };
             c.nontrivial(hashProblem(p));
             c.event("witnesses_evaluated");
@@ -1057,9 +1070,10 @@ inline void runC18(Ctx &c)
             if (problemNontrivial(p))
                 c.nontrivial(hashProblem(p));
             c18Judge(c, p, makeSplineDur(p)->coeffs(), "adversarial");
-            // margin statistic: worst residual at ratio <= 16 for the evidence
-            if (R <= 16)
-                c.check("C18.adversarial_margin_ratio_le_16", best, 1e-3, keyJson(p, "margin", 0));
+            // margin statistic for the evidence: worst residual the search reaches below the boundary of known finding KF1
+            // (the boundary itself, ratio 16, belongs to the finding: witness 3 above)
+            if (R < 16)
+                c.check("C18.adversarial_margin_ratio_lt_16", best, 1e-3, keyJson(p, "margin", 0));
         }
     }
 }
